@@ -165,14 +165,15 @@ impl AssemblyCode {
     }
 
     pub fn size_bytes(&self) -> u32 {
-        let mut size = 0;
+        let mut size = 0u32;
         for c in self.code.iter() {
             match c {
                 AsmLine::Instruction(i) => {
-                    size += i.nb_bytes;
+                    size = size.saturating_add(i.nb_bytes);
                 }
                 AsmLine::Inline(_, s) => {
-                    size += s;
+                    // (the size of an asm statement is any number the program gives)
+                    size = size.saturating_add(*s);
                 }
                 _ => {}
             }
@@ -881,8 +882,8 @@ impl AssemblyCode {
                         | AsmMnemonic::BCS
                         | AsmMnemonic::BCC => {
                             // Ok, let's try to find the label above and under and try to count the bytes
-                            let mut bytes_above = 0;
-                            let mut bytes_below = 0;
+                            let mut bytes_above = 0u32;
+                            let mut bytes_below = 0u32;
                             let mut index_above = position;
                             let mut index_below = position + 1;
                             let mut reached_above = false;
@@ -899,11 +900,11 @@ impl AssemblyCode {
                                             }
                                         }
                                         AsmLine::Inline(_, s) => {
-                                            bytes_above += s;
+                                            bytes_above = bytes_above.saturating_add(*s);
                                         }
                                         AsmLine::Instruction(k) => {
                                             debug!("Iter above: {:?}", k);
-                                            bytes_above += k.nb_bytes;
+                                            bytes_above = bytes_above.saturating_add(k.nb_bytes);
                                         }
                                         _ => (),
                                     }
@@ -917,11 +918,11 @@ impl AssemblyCode {
                                         }
                                     }
                                     Some(AsmLine::Inline(_, s)) => {
-                                        bytes_below += s;
+                                        bytes_below = bytes_below.saturating_add(*s);
                                     }
                                     Some(AsmLine::Instruction(k)) => {
                                         debug!("Iter below: {:?}", k);
-                                        bytes_below += k.nb_bytes;
+                                        bytes_below = bytes_below.saturating_add(k.nb_bytes);
                                     }
                                     None => notfound |= 2,
                                     _ => (),
